@@ -235,6 +235,8 @@ class Model:
                 c.methods[mn] = g
                 self.functions[g.qname] = g
                 self.pulled_up[g.qname] = base_def.qname
+        from .localnames import restore_names  # late import
+        self.renamed_back = restore_names(self)
         for f in self.functions.values():
             self._devirtualise_locals(f)
         new_helpers = {q: f for q, f in self.functions.items() if short(q) not in known and not f.name.startswith("__")}
